@@ -25,6 +25,70 @@ TRUSTED = [
 ]
 
 
+# operations that build a fresh string of about N bytes per call: each result kept alive must show up in the
+# accounted memory ("every operation whose allocation depends on program-chosen sizes charges memory")
+CHARGE_OPS = [
+    ("concat", "x..'!'"),
+    ("rep", "string.rep('y',N+i)"),
+    ("rep_sep", "string.rep('y',N//2,'z')"),
+    ("upper", "x:upper()"),
+    ("lower", "X:lower()"),
+    ("reverse", "x:reverse()"),
+    ("sub", "x:sub(2)"),
+    ("format_s", "string.format('%s!',x)"),
+    ("format_q", "string.format('%q',x)"),
+    ("pack_z", "string.pack('z',x)"),
+    ("pack_s4", "string.pack('s4',x)"),
+    ("pack_c", "string.pack('c'..(N+8),x)"),
+    ("tconcat", "table.concat({x,'!'})"),
+    ("gsub", "(x:gsub('x','y'))"),
+    ("gsub_grow", "(x:gsub('x','%0%0'))"),
+    ("char", "string.char(table.unpack(B))"),
+    ("utf8char", "utf8.char(table.unpack(B))"),
+    ("tostring_concat", "tostring(i)..x"),
+    ("unpack_s", "(string.unpack('s4',P))"),
+    ("coroutine", "coroutine.create(function() end)"),
+]
+
+
+def charge_audit(ck, gvh):
+    N, K = 3000, 24
+    pre = ("local N=%d local s=string.rep('x',N) local S=string.rep('X',N) local B={} for j=1,250 do B[j]=65+j%%20 end "
+           "local P=string.pack('s4',s) local IN,INU={},{} for i=1,%d do IN[i]=s..i INU[i]=S..i end " % (N, K))
+    cases = []
+    for name, op in CHARGE_OPS:
+        for k in (0, K):
+            src = pre + ("local t={} local K=%d for i=1,K do local x,X=IN[i],INU[i] t[i]=%s end "
+                         "emit(K>0 and (type(t[K])=='string' and #t[K] or 2048) or 0)" % (k, op))
+            cases.append((name, k, src))
+    lines = ["q%d %s cpu=%d mem=%d" % (j, hexs(src), BIG, BIG) for j, (_, _, src) in enumerate(cases)]
+    outs = [parse(l) for l in vlib.run_lines_resilient(gvh, ["lua"], lines, per_case_timeout=30)]
+    res = {}
+    for (name, k, src), o in zip(cases, outs):
+        res.setdefault(name, {})[k] = (o, src)
+    for name, d in res.items():
+        o0, _ = d[0]
+        oK, src = d[K]
+        ck.case("charge:" + name, True)
+        ck.count("charge-audit")
+        if o0["status"] != "ok" or oK["status"] != "ok":
+            ck.violation("charge audit program for %s did not run: %s" % (name, oK["raw"][:200]), {"kind": "harness", "program": src})
+            continue
+        outlen = int(oK["trace"][0][1:]) if oK["trace"] and oK["trace"][0].startswith("i") else 0
+        delta = oK["umem"] - o0["umem"]
+        want = int(0.9 * K * outlen)
+        ck.cov.setdefault("charge_audit", {})[name] = {"result_len": outlen, "accounted_delta": delta, "kept": K}
+        if outlen < 100 or delta < want:
+            k = ck.known_match(lambda kf: kf.get("match", {}).get("class") == "uncharged-result" and kf["match"].get("op") == name)
+            if k:
+                ck.known_finding(k)
+            else:
+                ck.violation("%s: %d results of %d bytes kept alive are accounted as only %d bytes (expected >= %d): the allocation is not charged"
+                             % (name, K, outlen, delta, want),
+                             {"kind": "Go!=S", "engine": "lua", "program": src, "accounted_with_results": oK["umem"], "accounted_without": o0["umem"],
+                              "result_len": outlen})
+
+
 def run(tier, seed):
     ck = vlib.Check("C06", tier, seed, level="proof")
     ok_obl = ck.obligations(PROP)
@@ -139,6 +203,8 @@ def run(tier, seed):
         if 0 <= k < len(cases):
             i, M = cases[k]
             ck.sample({"program": progs[i][1][:300], "limit_mem": M, "threshold": hi[i], "status": outs[k]["status"], "ctx": outs[k].get("X")})
+
+    charge_audit(ck, gvh)
 
     # ------------------------------------------------------------ amplification: charge before allocating
     amp = []
